@@ -43,7 +43,7 @@ MANDATORY = ["json", "json:str-values", "json:0d", "nc:dataset-write", "nc:appen
 
 
 def budget(tier):
-    return {"quick": dict(examples=500, shards=1), "thorough": dict(examples=6000, shards=16)}[tier]
+    return {"quick": dict(examples=1200, shards=1), "thorough": dict(examples=6000, shards=16)}[tier]
 
 
 # ----------------------------------------------------------------------------------------------
